@@ -26,6 +26,9 @@ SI = 'src/low_level/siginfo.rs'
 DET = 'src/low_level/signal_details.rs'
 TOK = 'signal-hook-tokio/src/lib.rs'
 ASY = 'signal-hook-async-std/src/lib.rs'
+MIO = 'signal-hook-mio/src/lib.rs'
+MIO_OWNER = r'impl<E:\s*Exfiltrator>\s+SignalsInfo'
+MIO_SRC = r'impl\s+Source\s+for\s+Signals'
 
 REGISTRY_FNS = [
     ('slot_new', REG, 'new', r'impl\s+Slot', 0),
@@ -89,7 +92,11 @@ SPEC = {
                 ('raw_store', RAW, 'store', r'Exfiltrator\s+for\s+WithRawSiginfo', 0), ('raw_load', RAW, 'load', r'Exfiltrator\s+for\s+WithRawSiginfo', 0),
                 ('raw_init', RAW, 'init', r'Exfiltrator\s+for\s+WithRawSiginfo', 0)],
     'iter': ITER_FNS + [('tokio_has_signals', TOK, 'has_signals', None, 0), ('tokio_poll_next', TOK, 'poll_next', None, 0),
-                        ('asyncstd_has_signals', ASY, 'has_signals', None, 0), ('asyncstd_poll_next', ASY, 'poll_next', None, 0)],
+                        ('asyncstd_has_signals', ASY, 'has_signals', None, 0), ('asyncstd_poll_next', ASY, 'poll_next', None, 0),
+                        ('mio_new', MIO, 'new', MIO_OWNER, 0), ('mio_with_exfiltrator', MIO, 'with_exfiltrator', MIO_OWNER, 0),
+                        ('mio_add_signal', MIO, 'add_signal', MIO_OWNER, 0), ('mio_pending', MIO, 'pending', MIO_OWNER, 0),
+                        ('mio_register', MIO, 'register', MIO_SRC, 0), ('mio_reregister', MIO, 'reregister', MIO_SRC, 0),
+                        ('mio_deregister', MIO, 'deregister', MIO_SRC, 0)],
     'instance': ITER_FNS,
     'pipe': [('wake', PIPE, 'wake', '', 0), ('wakefd_wake', PIPE, 'wake', r'impl\s+WakeFd', 0), ('wakefd_set_flags', PIPE, 'set_flags', None, 0),
              ('wakefd_drop', PIPE, 'drop', r'Drop\s+for\s+WakeFd', 0), ('register_raw', PIPE, 'register_raw', None, 0), ('register', PIPE, 'register', None, 0)],
